@@ -6,6 +6,7 @@ pub mod c01;
 pub mod c02;
 pub mod c05;
 pub mod c06;
+pub mod c08;
 pub mod c09;
 pub mod c12;
 pub mod c13;
@@ -27,6 +28,7 @@ pub fn run(prop: &str, rep: &Report) {
         "C02" => c02::run(rep),
         "C05" => c05::run(rep),
         "C06" => c06::run(rep),
+        "C08" => c08::run(rep),
         "C09" => c09::run(rep),
         "C12" => c12::run(rep),
         "C13" => c13::run(rep),
@@ -45,6 +47,7 @@ pub fn replay(case: &Value) -> Vec<Violation> {
         "c16" => c16::replay(case),
         "narrow" => c15::replay(case),
         "c09" => c09::replay(case),
+        "c08" => c08::replay(case),
         "c02" | "c02_key" | "c02_control" | "c02_iss" => c02::replay(case),
         k => {
             eprintln!("replay: unknown case kind {k}");
